@@ -123,7 +123,23 @@ def _enum(width, sel):
     return f
 
 
+def _bitmap4(b, s):
+    """Names of exactly the set bits of the 32-bit word (all-ones = 'no value' = no bits); unknown bits are 'err<i>',
+    bits whose table entry is the empty string are not listed."""
+    v = _u(b)
+    if v == 0xFFFFFFFF:
+        v = 0
+    out = []
+    for i in range(32):
+        if (v >> i) & 1:
+            name = s._labels.get(i, "err%d" % i)
+            if name:
+                out.append(name)
+    return ", ".join(out)
+
+
 TYPES = {
+    "EnumBitmap4": (4, _bitmap4),
     "Voltage": (2, _voltage),
     "Current": (2, _voltage),
     "CurrentS": (2, _current_s),
